@@ -34,6 +34,7 @@ type vReq struct {
 	cmd, run, lic, coll, hdr, payload string
 	owner                             string // run id, or app handle for preconnect/connect
 	ch                                chan collector.RPMResponse
+	src                               collector.Collectible // the container itself: re-read when the request is answered
 }
 
 func (r *vReq) canon() string {
@@ -168,7 +169,7 @@ func (v *vProcT) Execute(cmd *collector.RpmCmd, cs collector.RpmControls) collec
 	}
 	cmd.Data = data
 	r := &vReq{cmd: cmd.Name, run: cmd.RunID, lic: string(cmd.License), coll: cmd.Collector,
-		hdr: vCanonHdr(cmd.RequestHeadersMap), payload: vCanonPayload(cmd.Name, data), ch: make(chan collector.RPMResponse, 1)}
+		hdr: vCanonHdr(cmd.RequestHeadersMap), payload: vCanonPayload(cmd.Name, data), ch: make(chan collector.RPMResponse, 1), src: cs.Collectible}
 	r.owner = r.run
 	v.mu.Lock()
 	if !json.Valid(data) {
@@ -1323,6 +1324,16 @@ func vProcOp(t []string) string {
 		resp := vOutcome(vStr(t, 5))
 		ok := resp.Err == nil
 		needTick := false
+		// In the daemon the body is built on the sender goroutine, possibly long after the harvest (it may wait for a slot of
+		// the request limiter): a container handed to a request must not change while the request is in flight.  Read it again.
+		changed := ""
+		if r.src != nil && r.payload != "*" && r.cmd != collector.CommandPreconnect && r.cmd != collector.CommandConnect {
+			if again, err := r.src.CollectorJSON(false); err == nil {
+				if c := vCanonPayload(r.cmd, again); c != r.payload {
+					changed = " changed=" + r.cmd
+				}
+			}
+		}
 		switch r.cmd {
 		case collector.CommandPreconnect:
 			if ok {
@@ -1342,7 +1353,7 @@ func vProcOp(t []string) string {
 		if needTick && !v.tick() {
 			return "stuck"
 		}
-		return "reqs=" + v.collect(vExpect(t))
+		return "reqs=" + v.collect(vExpect(t)) + changed
 	case "advance":
 		d := time.Duration(vNat(t, 2)) * time.Second
 		for _, app := range v.p.apps {
